@@ -1356,6 +1356,9 @@ def run(ctx):
                     ctx.count('histories')
             finally:
                 fx.close()
+    # data sets with several spectral windows (v2 files whose centre frequency is retuned): props/c01win.py, wire_1005
+    from props import c01win
+    c01win.run(ctx)
     ctx.extra['unanswered_reads'] = ctx.dist.get('unanswered', 0)
     ctx.extra['observation_models_skipped'] = len(SKIPPED)
     if ctx.tier == 'thorough':
@@ -1379,6 +1382,9 @@ def replay(ctx, doc):
     hid = case.get('hid', {})
     if hid.get('kind') == 'witness':
         return run_witness(ctx, hid['witness'])
+    if hid.get('kind') in ('win', 'win_corpus'):
+        from props import c01win
+        return c01win.replay(ctx, hid)
     if 'witness' in case:
         return run_witness(ctx, case['witness'])
     try:
